@@ -256,3 +256,61 @@ func (g *Graph) MustPass(gen func(b *cfg.Block) bool) []bool {
 	}
 	return in
 }
+
+// Eval3 evaluates a branch condition in three-valued logic. go/cfg keeps
+// `a && b`, `a || b` and `!a` as one condition node, so the rules that prune
+// edges under an assumption decompose the condition here: atom reports the
+// truth of a leaf (known == false when the assumption says nothing about it).
+func Eval3(e ast.Expr, atom func(ast.Expr) (val, known bool)) (val, known bool) {
+	e = ast.Unparen(e)
+	switch x := e.(type) {
+	case *ast.BinaryExpr:
+		switch x.Op.String() {
+		case "&&":
+			a, ak := Eval3(x.X, atom)
+			b, bk := Eval3(x.Y, atom)
+			if (ak && !a) || (bk && !b) {
+				return false, true
+			}
+			if ak && bk {
+				return true, true
+			}
+			return false, false
+		case "||":
+			a, ak := Eval3(x.X, atom)
+			b, bk := Eval3(x.Y, atom)
+			if (ak && a) || (bk && b) {
+				return true, true
+			}
+			if ak && bk {
+				return false, true
+			}
+			return false, false
+		}
+	case *ast.UnaryExpr:
+		if x.Op.String() == "!" {
+			if v, k := Eval3(x.X, atom); k {
+				return !v, true
+			}
+			return false, false
+		}
+	}
+	return atom(e)
+}
+
+// KeepUnder returns an edge filter that follows only the edges consistent
+// with the truth assignment given by atom (see Eval3); tagged-switch case
+// expressions are handed to atom as they are.
+func KeepUnder(atom func(ast.Expr) (val, known bool)) func(b *cfg.Block, i int) bool {
+	return func(b *cfg.Block, i int) bool {
+		c := Cond(b)
+		if c == nil {
+			return true
+		}
+		v, known := Eval3(c, atom)
+		if !known {
+			return true
+		}
+		return (i == 0) == v
+	}
+}
